@@ -90,29 +90,38 @@ theorem inv_uNext {m : Nat} (hi : Inv s0 (s, pre ++ .gor ⟨id, ep, script, .uNe
     Inv s0 (s1, pre ++ .gor g1 :: post) := by
   simp only [mstep] at hm
   obtain ⟨o, hobj, hx⟩ := mem_withObj hm
-  simp only [List.mem_singleton, Prod.mk.injEq] at hx
-  obtain ⟨h1, h2⟩ := hx
-  subst s1 g1
   obtain ⟨_, hst, hcp, hmk, ob, hbo, hl⟩ := inv_me hi hep rfl
   have hoe : ob = o := by rw [hst, hbo] at hobj; exact Option.some.inj hobj
-  subst hoe
-  refine inv_holder hi hep rfl rfl rfl (pc' := .uSet) rfl rfl rfl rfl hi.run hi.wf hi.lognums ?_
-  refine ⟨hcp, ob, hbo, hl, ?_⟩
-  simp only [setObj, hst, hmk]
+  subst hoe hmk
+  by_cases hz : lease (mark s.base) ob.interval = 0
+  · simp only [hz, if_true, List.mem_singleton, Prod.mk.injEq] at hx
+    obtain ⟨h1, h2⟩ := hx
+    subst s1 g1
+    refine inv_lin (sm := setObj s { ob with next := mark s.base }) (g := ⟨id, ep, script, .uNext (mark s.base), got⟩)
+      (g' := ⟨id, ep, script, .unlock .err, got⟩) (a := .err) (op := .next) hi hep rfl rfl rfl rfl rfl rfl rfl
+      ?_ trivial ?_
+    · simp [step, hbo, hl, hz, setObj, hst]
+    · simp only [setObj, hst]; exact hi.lognums
+  · simp only [hz, if_false, List.mem_singleton, Prod.mk.injEq] at hx
+    obtain ⟨h1, h2⟩ := hx
+    subst s1 g1
+    refine inv_holder hi hep rfl rfl rfl (pc' := .uSet) rfl rfl rfl rfl hi.run hi.wf hi.lognums ?_
+    refine ⟨hcp, ob, hbo, hl, hz, ?_⟩
+    simp only [setObj, hst]
 
 theorem inv_uSet (hi : Inv s0 (s, pre ++ .gor ⟨id, ep, script, .uSet, got⟩ :: post)) (hep : ep = s.epoch)
     (hm : (s1, g1) ∈ mstep s ⟨id, ep, script, .uSet, got⟩) : Inv s0 (s1, pre ++ .gor g1 :: post) := by
   simp only [mstep] at hm
   obtain ⟨o, hobj, hx⟩ := mem_withObj hm
-  obtain ⟨_, hcp, ob, hbo, hl, hst⟩ := inv_me hi hep rfl
+  obtain ⟨_, hcp, ob, hbo, hl, hz, hst⟩ := inv_me hi hep rfl
   have hoe : o = { ob with next := mark s.base } := by
     rw [hst] at hobj; exact (Option.some.inj hobj).symm
   subst hoe
   simp only [List.mem_cons, Prod.mk.injEq, List.not_mem_nil, or_false] at hx
   rcases hx with ⟨h1, h2⟩ | ⟨h1, h2⟩ <;> subst s1 g1
-  · refine inv_holder hi hep rfl rfl rfl (pc' := .uRes (mark s.base + ob.interval)) rfl rfl rfl rfl
+  · refine inv_holder hi hep rfl rfl rfl (pc' := .uRes (mark s.base + lease (mark s.base) ob.interval)) rfl rfl rfl rfl
       hi.run hi.wf hi.lognums ?_
-    refine ⟨rfl, ob, hbo, hl, rfl, ?_⟩
+    refine ⟨rfl, ob, hbo, hl, hz, rfl, ?_⟩
     simp only [setStore, hst]
   · refine inv_lin (sm := s) (g := ⟨id, ep, script, .uSet, got⟩) (g' := ⟨id, ep, script, .unlock .err, got⟩)
       (a := .err) (op := .failNext .set) hi hep rfl rfl rfl rfl rfl rfl rfl ?_ trivial ?_
@@ -127,12 +136,12 @@ theorem inv_uRes {r : Nat} (hi : Inv s0 (s, pre ++ .gor ⟨id, ep, script, .uRes
   simp only [List.mem_singleton, Prod.mk.injEq] at hx
   obtain ⟨h1, h2⟩ := hx
   subst s1 g1
-  obtain ⟨_, hcp, ob, hbo, hl, hr, hst⟩ := inv_me hi hep rfl
+  obtain ⟨_, hcp, ob, hbo, hl, hz, hr, hst⟩ := inv_me hi hep rfl
   have hoe : o = { ob with next := mark s.base } := by
     rw [hst] at hobj; exact (Option.some.inj hobj).symm
   subst hoe hr
   refine inv_holder hi hep rfl rfl rfl (pc' := .nHand) rfl rfl rfl rfl hi.run hi.wf hi.lognums ?_
-  refine Or.inr ⟨hcp, ob, hbo, hl, ?_⟩
+  refine Or.inr ⟨hcp, ob, hbo, hl, hz, ?_⟩
   simp only [setObj, hst]
 
 theorem inv_nHand (hi : Inv s0 (s, pre ++ .gor ⟨id, ep, script, .nHand, got⟩ :: post)) (hep : ep = s.epoch)
@@ -144,7 +153,7 @@ theorem inv_nHand (hi : Inv s0 (s, pre ++ .gor ⟨id, ep, script, .nHand, got⟩
   subst s1 g1
   have hln := hi.lognums
   obtain ⟨_, hme⟩ := inv_me hi hep rfl
-  rcases hme with ⟨hst, hcp, ob, hbo, hl⟩ | ⟨hcp, ob, hbo, hl, hst⟩
+  rcases hme with ⟨hst, hcp, ob, hbo, hl⟩ | ⟨hcp, ob, hbo, hl, hz, hst⟩
   · have hoe : ob = o := by rw [hst, hbo] at hobj; exact Option.some.inj hobj
     subst hoe
     refine inv_lin (sm := handOut s id ob) (g := ⟨id, ep, script, .nHand, got⟩)
@@ -154,14 +163,14 @@ theorem inv_nHand (hi : Inv s0 (s, pre ++ .gor ⟨id, ep, script, .nHand, got⟩
     · simp only [handOut, List.map_append, List.map_cons, List.map_nil, List.reverse_append, List.reverse_cons,
         List.reverse_nil, List.nil_append, List.cons_append]
       rw [hst, hln]
-  · have hoe : o = { ob with next := mark s.base, reserved := mark s.base + ob.interval } := by
+  · have hoe : o = { ob with next := mark s.base, reserved := mark s.base + lease (mark s.base) ob.interval } := by
       rw [hst] at hobj; exact (Option.some.inj hobj).symm
     subst hoe
-    refine inv_lin (sm := handOut s id { ob with next := mark s.base, reserved := mark s.base + ob.interval })
+    refine inv_lin (sm := handOut s id { ob with next := mark s.base, reserved := mark s.base + lease (mark s.base) ob.interval })
       (g := ⟨id, ep, script, .nHand, got⟩)
       (g' := ⟨id, ep, script, .unlock (.num (mark s.base)), got⟩) (a := .num (mark s.base)) (op := .next) hi hep rfl rfl rfl rfl rfl rfl rfl
       ?_ trivial ?_
-    · simp [step, hbo, hl, handOut, hst, update]
+    · simp [step, hbo, hl, hz, handOut, hst, update]
     · simp only [handOut, List.map_append, List.map_cons, List.map_nil, List.reverse_append, List.reverse_cons,
         List.reverse_nil, List.nil_append, List.cons_append]
       rw [hst]; simp only; rw [hln]
@@ -255,39 +264,48 @@ theorem step_new (b : St) (i : Nat) :
 /-- Whatever micro-step the goroutine inside a method has reached, abandoning the object there is a
 crash of the sequential machine at the store-operation boundary `cp`. -/
 theorem pcOk_crash {s : Shared} {id : Nat} {pc : Pc} (h : PcOk s id pc) (hin : pc.inside = true) :
-    abandon s.st = abandon (step s.base (.crash s.cp)).1 ∧ s.st.returned = s.base.returned := by
+    abandon s.st = abandon (step s.base (.crash s.cp)).1 ∧ s.st.returned = s.base.returned ∧
+      (s.cp = .nextWrite → ∃ o, s.base.obj = some o ∧ hasLease o = false ∧ lease (mark s.base) o.interval ≠ 0) := by
+  have hidle : ∀ {P : Prop}, s.cp = .idle → (s.cp = .nextWrite → P) := fun h h' => by rw [h] at h'; cases h'
   cases pc with
   | idle => cases hin
-  | nTest => obtain ⟨hst, hcp⟩ := h; rw [hcp, step_crash_idle, abandon_idem, hst]; exact ⟨rfl, rfl⟩
-  | rTest => obtain ⟨hst, hcp⟩ := h; rw [hcp, step_crash_idle, abandon_idem, hst]; exact ⟨rfl, rfl⟩
-  | uGet => obtain ⟨hst, hcp, _⟩ := h; rw [hcp, step_crash_idle, abandon_idem, hst]; exact ⟨rfl, rfl⟩
-  | uNext m => obtain ⟨hst, hcp, _⟩ := h; rw [hcp, step_crash_idle, abandon_idem, hst]; exact ⟨rfl, rfl⟩
-  | rSet => obtain ⟨hst, hcp, _⟩ := h; rw [hcp, step_crash_idle, abandon_idem, hst]; exact ⟨rfl, rfl⟩
-  | unlock a => obtain ⟨hst, hcp, _⟩ := h; rw [hcp, step_crash_idle, abandon_idem, hst]; exact ⟨rfl, rfl⟩
+  | nTest => obtain ⟨hst, hcp⟩ := h; rw [hcp, step_crash_idle, abandon_idem, hst]; exact ⟨rfl, rfl, fun h' => by cases h'⟩
+  | rTest => obtain ⟨hst, hcp⟩ := h; rw [hcp, step_crash_idle, abandon_idem, hst]; exact ⟨rfl, rfl, fun h' => by cases h'⟩
+  | uGet => obtain ⟨hst, hcp, _⟩ := h; rw [hcp, step_crash_idle, abandon_idem, hst]; exact ⟨rfl, rfl, fun h' => by cases h'⟩
+  | uNext m => obtain ⟨hst, hcp, _⟩ := h; rw [hcp, step_crash_idle, abandon_idem, hst]; exact ⟨rfl, rfl, fun h' => by cases h'⟩
+  | rSet => obtain ⟨hst, hcp, _⟩ := h; rw [hcp, step_crash_idle, abandon_idem, hst]; exact ⟨rfl, rfl, fun h' => by cases h'⟩
+  | unlock a => obtain ⟨hst, hcp, _⟩ := h; rw [hcp, step_crash_idle, abandon_idem, hst]; exact ⟨rfl, rfl, fun h' => by cases h'⟩
   | uSet =>
-    obtain ⟨hcp, o, hbo, hl, hst⟩ := h
+    obtain ⟨hcp, o, hbo, hl, _, hst⟩ := h
+    refine ⟨?_, by rw [hst], hidle hcp⟩
     rw [hcp, step_crash_idle, abandon_idem, hst]
     simp [abandon, hbo]
   | uRes r =>
-    obtain ⟨hcp, o, hbo, hl, _, hst⟩ := h
+    obtain ⟨hcp, o, hbo, hl, hz, _, hst⟩ := h
+    refine ⟨?_, by rw [hst], fun _ => ⟨o, hbo, hl, hz⟩⟩
     rw [hcp, hst]
-    simp [step, abandon, hbo, hl]
+    simp [step, abandon, hbo, hl, hz]
   | nHand =>
-    rcases h with ⟨hst, hcp, _⟩ | ⟨hcp, o, hbo, hl, hst⟩
-    · rw [hcp, step_crash_idle, abandon_idem, hst]; exact ⟨rfl, rfl⟩
-    · rw [hcp, hst]
-      simp [step, abandon, hbo, hl]
+    rcases h with ⟨hst, hcp, _⟩ | ⟨hcp, o, hbo, hl, hz, hst⟩
+    · rw [hcp, step_crash_idle, abandon_idem, hst]; exact ⟨rfl, rfl, fun h' => by cases h'⟩
+    · refine ⟨?_, by rw [hst], fun _ => ⟨o, hbo, hl, hz⟩⟩
+      rw [hcp, hst]
+      simp [step, abandon, hbo, hl, hz]
   | rRes =>
     obtain ⟨hcp, o, hbo, hl, hst⟩ := h
+    refine ⟨?_, by rw [hst], fun h' => by rw [hcp] at h'; cases h'⟩
     rw [hcp, hst]
     simp [step, abandon, hbo, hl]
 
 theorem crash_ok {s0 : St} {c : Cfg Shared Thread} (hi : Inv s0 c) :
-    abandon c.1.st = abandon (step c.1.base (.crash c.1.cp)).1 ∧ c.1.st.returned = c.1.base.returned := by
+    abandon c.1.st = abandon (step c.1.base (.crash c.1.cp)).1 ∧ c.1.st.returned = c.1.base.returned ∧
+      (c.1.cp = .nextWrite → ∃ o, c.1.base.obj = some o ∧ hasLease o = false ∧
+        lease (mark c.1.base) o.interval ≠ 0) := by
   cases hh : c.1.holder with
   | none =>
     obtain ⟨hst, hcp⟩ := hi.quiet hh
-    rw [hcp, step_crash_idle, abandon_idem, hst]; exact ⟨rfl, rfl⟩
+    rw [hcp, step_crash_idle, abandon_idem, hst]
+    exact ⟨rfl, rfl, fun h' => by cases h'⟩
   | some h =>
     have hc := hi.cnt
     rw [hh] at hc
@@ -312,7 +330,7 @@ theorem inv_env {s0 : St} {s s' : Shared} {pre post : List Thread} {rs : List Na
     · rename_i hi0
       simp only [List.mem_singleton, Prod.mk.injEq] at hm
       obtain ⟨rfl, rfl⟩ := hm
-      obtain ⟨hab, hret⟩ := crash_ok hi
+      obtain ⟨hab, hret, _⟩ := crash_ok hi
       have hfresh : ∀ u, u ∈ pre ∨ u ∈ post → pIn (s.epoch + 1) u = false ∧ ThreadOk
           { st := (step s.st (.new i)).1, holder := none, epoch := s.epoch + 1, log := s.log,
             hist := s.hist ++ [(none, .crash s.cp, (step s.base (.crash s.cp)).2), (none, .new i, .ok)],
